@@ -198,7 +198,8 @@ def _runs(tokens, fn, interpret=False):
         else:
             if run:
                 res = fn("".join(run))
-                out.extend(rs.parse(res) if interpret else rs.lit(res))
+                # only what the replacement produced is interpreted; a run it left alone keeps its literal characters
+                out.extend(rs.parse(res) if interpret and res != "".join(run) else rs.lit(res))
                 run = []
             if tok is not None:
                 out.append(tok)
@@ -209,6 +210,8 @@ def value_transform(t, v):
     """-> list of new values (documented meaning)."""
     ty = t["type"]
     k = v[0]
+    if k == "exp" and ty != "set_value":  # the values inside an expansion (windash) are transformed one by one
+        return [("exp", [y for x in v[1] for y in value_transform(t, x)])]
     if ty == "set_value":
         val = t["value"]
         ft = t.get("force_type")
@@ -230,8 +233,6 @@ def value_transform(t, v):
                 raise ExpectFail("not finite")
             return [("num", int(n) if n == int(n) else n)]
         return [v]
-    if k == "exp":  # the values inside an expansion (windash) are transformed one by one, the expansion stays
-        return [("exp", [y for x in v[1] for y in value_transform(t, x)])]
     if k == "num" and ty == "replace_string" and re.search(t["regex"], str(v[1])):
         raise rm.Ambiguous("replace_string matching a number: result type not documented")
     if k != "str":
